@@ -72,7 +72,7 @@ struct dispatch_table
                  // try the first guard
                  typedef typename ::boost::mpl::front<Sequence>::type first_row;
                  HandledEnum res = first_row::execute(fsm,region_index,state,evt);
-                 if (HANDLED_TRUE!=res && HANDLED_DEFERRED!=res)
+                 if (!(res & (HANDLED_TRUE | HANDLED_DEFERRED)))
                  {
                     // if the first rejected, move on to the next one
                     HandledEnum sub_res = 
